@@ -161,7 +161,7 @@ var propSpecs = map[string]*propSpec{
 	},
 	"C05": {
 		id:      "C05",
-		streams: []stream{{"segments", 15000}, {"segprobe", 8000}},
+		streams: []stream{{"segments", 15000}, {"segprobe", 8000}, {"bucketdense", 4000}},
 		proj: func(o *WObs) any {
 			return []any{o.Result.Reason.Kind, o.Result.Reason.ErrorKind, o.Result.Reason.RuleIndex, o.SegLookups}
 		},
@@ -170,7 +170,7 @@ var propSpecs = map[string]*propSpec{
 	},
 	"C06": {
 		id:      "C06",
-		streams: []stream{{"rollouts", 6000}, {"bucketsplit", 6000}},
+		streams: []stream{{"rollouts", 6000}, {"bucketsplit", 6000}, {"bucketdense", 4000}},
 		proj:    func(o *WObs) any { return []any{o.Result.Index, o.Result.Reason.Kind, o.Result.Reason.ErrorKind} },
 		nontrivial: func(c *EvalCase) bool {
 			for _, f := range allFlags(c) {
@@ -189,7 +189,7 @@ var propSpecs = map[string]*propSpec{
 	},
 	"C07": {
 		id:      "C07",
-		streams: []stream{{"bucketsplit", 10000}, {"rollouts", 6000}},
+		streams: []stream{{"bucketsplit", 10000}, {"rollouts", 6000}, {"bucketdense", 3000}},
 		proj:    func(o *WObs) any { return []any{o.Result.Index, o.Result.Reason.Kind, o.Result.Reason.ErrorKind} },
 		nontrivial: func(c *EvalCase) bool {
 			return hasRollout(&c.Flag)
